@@ -128,6 +128,9 @@ type Case struct {
 	TNames   []int       `json:"tnames"` // Tree.Names as tokens (-1 = "total", -2 = unknown)
 	TMap     [][2]uint64 `json:"tmap"`   // Tree.NamesMap sorted by key
 	Panic    string      `json:"panic,omitempty"`
+	// the same rows through ProfService.MergeStackTraces, and the diff view through ProfService.RenderDiff (svc.go)
+	Svc  *SvcObs  `json:"svc,omitempty"`
+	Diff *DiffObs `json:"diff,omitempty"`
 	// kind hash
 	HA, HB, HH uint64
 }
@@ -711,6 +714,7 @@ func run(c *Case) {
 	case "rows":
 		fillFnh(c)
 		runMerge(c)
+		runService(c)
 	default:
 		fillFnh(c)
 		for i := range c.Profs {
@@ -718,6 +722,7 @@ func run(c *Case) {
 		}
 		project(c)
 		runMerge(c)
+		runService(c)
 	}
 }
 
